@@ -22,6 +22,6 @@ id,name,needs,demo,suite,w=sys.argv[1:]
 json.dump({"property":id,"breaks":id,"needs_to_manifest":needs,"demo":demo,
  "confirmed":{"demo_exit_with_change":int(w),"demo_exit_without_change":0,"suite_with_change":suite,
  "how":"in a scratch worktree of /repo at the pinned commit: applied patch.diff, ran the demo (fails), ran the full baseline pytest suite (green), reverted, ran the demo (passes)"},
- "base_commit":"722bf2e"},open("/verif/seeded/%s/meta.json"%name,"w"),indent=1)
+ "base_commit":__import__("subprocess").check_output(["git","-C","/repo","rev-parse","--short","HEAD"],text=True).strip()},open("/verif/seeded/%s/meta.json"%name,"w"),indent=1)
 PY
 cd / && git -C /repo worktree remove --force $wt && rm -f /tmp/wt/$name.patch /tmp/wt/$name.*.log && echo "stored $d, worktree removed"
